@@ -132,7 +132,7 @@ Theorem schemas_accept_same_keys_documents : forall d,
 Proof.
   intros d. pose proof schemas_accept_same_keys as H.
   apply andb_true_iff in H. destruct H as [H H3]. apply andb_true_iff in H. destruct H as [H1 H2].
-  split; [|split]; eapply same_keys_sound; eassumption.
+  split; [exact (same_keys_sound _ _ _ H1 d)|]. split; [exact (same_keys_sound _ _ _ H2 d)|exact (same_keys_sound _ _ _ H3 d)].
 Qed.
 Print Assumptions schemas_accept_same_keys_documents.
 
